@@ -324,3 +324,335 @@ Example C08_counter_dependence_finding_nocomments :
   c08_shape (parse_string false c08_dir (-1) t) = (1%nat, [0]%N, [0; 1]%N) /\
   c08_shape (parse_string false c08_dir 10 t) = (2%nat, [11; 12]%N, [0; 1]%N).
 Proof. repeat split; vm_compute; reflexivity. Qed.
+
+(* ================================================================================================== *)
+(* added from Properties/C08_add.v (2026-10-01)                                              *)
+(* ================================================================================================== *)
+(* C08 (addition): the WRITER.  The bytes written from the result of a read do not depend on the value the placeholder
+   counter had reached, including across its wrap-around.  To be appended to Properties/C08.v. *)
+From Coq Require Import NArith ZArith List Bool.
+From DictIO Require Import Chars Str Value Scalar Lexer MiscSpec CliProofs KeyPath SDict Layout TokParser Reader.
+From DictIO Require Parse.
+From DictIO Require Import CounterBase CounterLex CounterParse CounterProofs CounterRead CounterWrite.
+Import ListNotations.
+
+(* ---- the writer commutes with the renaming ------------------------------------------------------------- *)
+(* write_safe s (CounterWrite.v), a boolean that only looks at character classes:
+     - the ids of the line comment and include tables are six digit numbers;
+     - line comment and block comment texts begin with a character that is neither an upper case letter nor a digit
+       (they begin with a slash), block comment texts also end with one;
+     - in keys, string / float leaves, comment texts and include names a semicolon is never directly followed by an upper
+       case letter or a digit (semi_ok): the re-insertion pattern  PLACEHOLDER ws+ PLACEHOLDER;  ends with a semicolon,
+       and what follows it is glued to the end of the text put in its place (C08_writer_safe_finding below). *)
+Theorem C08_writer_equivariant : forall d s, write_safe s = true ->
+  to_string_sd (rename_sd d s) = rename_str d (to_string_sd s).
+Proof. exact writer_equivariant. Qed.
+Print Assumptions C08_writer_equivariant.
+
+(* (A) a written text that contains no placeholder name is literally the same under the renaming *)
+Theorem C08_writer_counter_independent : forall d s, write_safe s = true -> cleanb (to_string_sd s) = true ->
+  to_string_sd (rename_sd d s) = to_string_sd s.
+Proof. exact writer_invariant. Qed.
+Print Assumptions C08_writer_counter_independent.
+
+Definition c08_sd (r : res (sdict * Z)) : sdict := match r with Ok (s, _) => s | Raise _ => sd_empty end.
+
+(* non-vacuity: the SDict read from c08_text (two line comments, an include, a block comment, two string literals) at the
+   fresh counter; renamed by 999998 (= the read at 999997: ids 999998 999999 0 1 2) the tables differ, the texts are equal *)
+Example C08_writer_counter_independent_nonvacuous :
+  let s := c08_sd (read_plain c08_fs c08_root false true (-1)) in
+  write_safe s = true /\ cleanb (to_string_sd s) = true /\
+  to_string_sd (rename_sd 999998 s) = rename_str 999998 (to_string_sd s) /\
+  to_string_sd (rename_sd 999998 s) = to_string_sd s /\
+  rename_sd 999998 s = c08_sd (read_plain c08_fs c08_root false true 999997) /\
+  map fst (sd_lc s) = [0; 1]%N /\ map fst (sd_lc (rename_sd 999998 s)) = [999998; 999999]%N /\
+  List.length (to_string_sd s) = 411%nat.
+Proof.
+  cbv zeta.
+  assert (H1 : write_safe (c08_sd (read_plain c08_fs c08_root false true (-1))) = true) by (vm_compute; reflexivity).
+  assert (H2 : cleanb (to_string_sd (c08_sd (read_plain c08_fs c08_root false true (-1)))) = true) by (vm_compute; reflexivity).
+  refine (conj H1 (conj H2 (conj (C08_writer_equivariant _ _ H1) (conj (C08_writer_counter_independent _ _ H1 H2) _)))).
+  repeat split; vm_compute; reflexivity.
+Qed.
+
+(* ---- (B) the text written after a read ---------------------------------------------------------------------- *)
+(* written_after wr r: the text wr writes from the result of the read r, or the error of the read.
+   write_side wr r (a boolean on the FIRST read): its result is write_safe and the text written from it contains no
+   placeholder name.  The second half is not implied by the reader's side conditions: the modelled library leaves
+   placeholders in the written text (C08_written_placeholder_finding below), and those bytes do depend on the counter. *)
+Theorem C08_write_after_read_counter_independent : forall fs root text c1 c2,
+  counter_ok c1 -> counter_ok c2 ->
+  fs_lookup (norm_path root) fs = Some (FNative text) ->
+  cleanb text = true -> cleanb (dir_of root) = true ->
+  parse_side (lex true (dir_of root) c1 text) = true ->
+  write_side to_string_sd (read_plain fs root false true c1) = true ->
+  written_after to_string_sd (read_plain fs root false true c2) = written_after to_string_sd (read_plain fs root false true c1).
+Proof. exact write_after_read_noinc. Qed.
+Print Assumptions C08_write_after_read_counter_independent.
+
+Theorem C08_write_after_read_includes_counter_independent : forall fs root c1 c2,
+  counter_ok c1 -> counter_ok c2 -> fs_ok fs = true -> cleanb root = true ->
+  write_side to_string_sd (read_plain fs root true true c1) = true ->
+  written_after to_string_sd (read_plain fs root true true c2) = written_after to_string_sd (read_plain fs root true true c1).
+Proof. exact write_after_read_inc. Qed.
+Print Assumptions C08_write_after_read_includes_counter_independent.
+
+(* two successful reads: the written texts are equal *)
+Theorem C08_write_after_read_text : forall fs root inc c1 c2 s1 k1 s2 k2,
+  written_after to_string_sd (read_plain fs root inc true c2) = written_after to_string_sd (read_plain fs root inc true c1) ->
+  read_plain fs root inc true c1 = Ok (s1, k1) -> read_plain fs root inc true c2 = Ok (s2, k2) ->
+  to_string_sd s1 = to_string_sd s2.
+Proof. exact write_after_read_text. Qed.
+Print Assumptions C08_write_after_read_text.
+
+(* non-vacuity: c08_fs (no include merging) and c08_fs2 (the included file merged: eight ids) read at -1, 123456 and 999997
+   (the ids straddle the wrap-around): by the theorems, and literally (vm_compute) *)
+Example C08_write_after_read_counter_independent_nonvacuous :
+  write_side to_string_sd (read_plain c08_fs c08_root false true (-1)) = true /\
+  written_after to_string_sd (read_plain c08_fs c08_root false true 123456) = written_after to_string_sd (read_plain c08_fs c08_root false true (-1)) /\
+  written_after to_string_sd (read_plain c08_fs c08_root false true 999997) = written_after to_string_sd (read_plain c08_fs c08_root false true (-1)) /\
+  to_string_sd (c08_sd (read_plain c08_fs c08_root false true 999997)) = to_string_sd (c08_sd (read_plain c08_fs c08_root false true (-1))) /\
+  to_string_sd (c08_sd (read_plain c08_fs c08_root false true 123456)) = to_string_sd (c08_sd (read_plain c08_fs c08_root false true (-1))) /\
+  c08_sd (read_plain c08_fs c08_root false true 999997) <> c08_sd (read_plain c08_fs c08_root false true (-1)) /\
+  (exists txt, written_after to_string_sd (read_plain c08_fs c08_root false true (-1)) = Ok txt /\ List.length txt = 411%nat).
+Proof.
+  destruct c08_ok as (H1 & H2 & H3).
+  assert (Hf : fs_lookup (norm_path c08_root) c08_fs = Some (FNative c08_text)) by (vm_compute; reflexivity).
+  assert (Hd : cleanb (dir_of c08_root) = true) by (vm_compute; reflexivity).
+  assert (Ht : cleanb c08_text = true) by (vm_compute; reflexivity).
+  assert (Hs : parse_side (lex true (dir_of c08_root) (-1) c08_text) = true) by (vm_compute; reflexivity).
+  assert (Hw : write_side to_string_sd (read_plain c08_fs c08_root false true (-1)) = true) by (vm_compute; reflexivity).
+  refine (conj Hw (conj (C08_write_after_read_counter_independent _ _ _ _ _ H1 H2 Hf Ht Hd Hs Hw)
+                  (conj (C08_write_after_read_counter_independent _ _ _ _ _ H1 H3 Hf Ht Hd Hs Hw) _))).
+  split; [vm_compute; reflexivity|]. split; [vm_compute; reflexivity|]. split; [vm_compute; discriminate|].
+  eexists. split; vm_compute; reflexivity.
+Qed.
+
+Example C08_write_after_read_includes_counter_independent_nonvacuous :
+  fs_ok c08_fs2 = true /\ cleanb c08_root = true /\
+  write_side to_string_sd (read_plain c08_fs2 c08_root true true (-1)) = true /\
+  written_after to_string_sd (read_plain c08_fs2 c08_root true true 123456) = written_after to_string_sd (read_plain c08_fs2 c08_root true true (-1)) /\
+  written_after to_string_sd (read_plain c08_fs2 c08_root true true 999997) = written_after to_string_sd (read_plain c08_fs2 c08_root true true (-1)) /\
+  (forall s1 k1 s2 k2, read_plain c08_fs2 c08_root true true (-1) = Ok (s1, k1) -> read_plain c08_fs2 c08_root true true 999997 = Ok (s2, k2) ->
+                       to_string_sd s1 = to_string_sd s2) /\
+  to_string_sd (c08_sd (read_plain c08_fs2 c08_root true true 999997)) = to_string_sd (c08_sd (read_plain c08_fs2 c08_root true true (-1))) /\
+  to_string_sd (c08_sd (read_plain c08_fs2 c08_root true true 123456)) = to_string_sd (c08_sd (read_plain c08_fs2 c08_root true true (-1))) /\
+  (map fst (sd_lc (c08_sd (read_plain c08_fs2 c08_root true true 999997))), map fst (sd_lc (c08_sd (read_plain c08_fs2 c08_root true true (-1))))) =
+    ([999998; 999999; 3]%N, [0; 1; 5]%N) /\
+  (exists txt, written_after to_string_sd (read_plain c08_fs2 c08_root true true (-1)) = Ok txt /\ List.length txt = 520%nat).
+Proof.
+  destruct c08_ok as (H1 & H2 & H3).
+  assert (Hf : fs_ok c08_fs2 = true) by (vm_compute; reflexivity).
+  assert (Hr : cleanb c08_root = true) by (vm_compute; reflexivity).
+  assert (Hw : write_side to_string_sd (read_plain c08_fs2 c08_root true true (-1)) = true) by (vm_compute; reflexivity).
+  pose proof (C08_write_after_read_includes_counter_independent _ _ _ _ H1 H3 Hf Hr Hw) as E3.
+  refine (conj Hf (conj Hr (conj Hw (conj (C08_write_after_read_includes_counter_independent _ _ _ _ H1 H2 Hf Hr Hw) (conj E3 _))))).
+  split; [intros s1 k1 s2 k2; exact (C08_write_after_read_text _ _ _ _ _ _ _ _ _ E3)|].
+  split; [vm_compute; reflexivity|]. split; [vm_compute; reflexivity|]. split; [vm_compute; reflexivity|].
+  eexists. split; vm_compute; reflexivity.
+Qed.
+
+(* the side condition write_side can be checked under either counter (write_safe only looks at character classes and at
+   ids being six digit numbers; the written text of the second read is the renamed text of the first) *)
+Theorem C08_write_side_counter_independent : forall fs root c1 c2,
+  counter_ok c1 -> counter_ok c2 -> fs_ok fs = true -> cleanb root = true ->
+  write_side to_string_sd (read_plain fs root true true c2) = write_side to_string_sd (read_plain fs root true true c1).
+Proof. exact write_side_counter_independent. Qed.
+Print Assumptions C08_write_side_counter_independent.
+
+Example C08_write_side_counter_independent_nonvacuous :
+  fs_ok c08_fs2 = true /\ cleanb c08_root = true /\
+  write_side to_string_sd (read_plain c08_fs2 c08_root true true 999997) = write_side to_string_sd (read_plain c08_fs2 c08_root true true (-1)) /\
+  write_side to_string_sd (read_plain c08_fs2 c08_root true true 999997) = true.
+Proof.
+  destruct c08_ok as (H1 & H2 & H3).
+  assert (Hf : fs_ok c08_fs2 = true) by (vm_compute; reflexivity).
+  assert (Hr : cleanb c08_root = true) by (vm_compute; reflexivity).
+  refine (conj Hf (conj Hr (conj (C08_write_side_counter_independent _ _ _ _ H1 H3 Hf Hr) _))). vm_compute. reflexivity.
+Qed.
+
+(* ---- FoamFormatter ----------------------------------------------------------------------------------------- *)
+Theorem C08_foam_writer_equivariant : forall d s, write_safe s = true ->
+  foam_to_string_sd (rename_sd d s) = rename_str d (foam_to_string_sd s).
+Proof. exact foam_writer_equivariant. Qed.
+Print Assumptions C08_foam_writer_equivariant.
+
+Theorem C08_foam_writer_counter_independent : forall d s, write_safe s = true -> cleanb (foam_to_string_sd s) = true ->
+  foam_to_string_sd (rename_sd d s) = foam_to_string_sd s.
+Proof. exact foam_writer_invariant. Qed.
+Print Assumptions C08_foam_writer_counter_independent.
+
+Theorem C08_foam_write_after_read_includes_counter_independent : forall fs root c1 c2,
+  counter_ok c1 -> counter_ok c2 -> fs_ok fs = true -> cleanb root = true ->
+  write_side foam_to_string_sd (read_plain fs root true true c1) = true ->
+  written_after foam_to_string_sd (read_plain fs root true true c2) = written_after foam_to_string_sd (read_plain fs root true true c1).
+Proof. exact foam_write_after_read_inc. Qed.
+Print Assumptions C08_foam_write_after_read_includes_counter_independent.
+
+Example C08_foam_write_after_read_includes_counter_independent_nonvacuous :
+  write_side foam_to_string_sd (read_plain c08_fs2 c08_root true true (-1)) = true /\
+  written_after foam_to_string_sd (read_plain c08_fs2 c08_root true true 999997) = written_after foam_to_string_sd (read_plain c08_fs2 c08_root true true (-1)) /\
+  foam_to_string_sd (c08_sd (read_plain c08_fs2 c08_root true true 999997)) = foam_to_string_sd (c08_sd (read_plain c08_fs2 c08_root true true (-1))) /\
+  foam_to_string_sd (rename_sd 999998 (c08_sd (read_plain c08_fs2 c08_root true true (-1)))) =
+    rename_str 999998 (foam_to_string_sd (c08_sd (read_plain c08_fs2 c08_root true true (-1)))) /\
+  contains (of_string "OpenFOAM") (foam_to_string_sd (c08_sd (read_plain c08_fs2 c08_root true true (-1)))) = true /\
+  contains (of_string "// sub comment") (foam_to_string_sd (c08_sd (read_plain c08_fs2 c08_root true true (-1)))) = true.
+Proof.
+  destruct c08_ok as (H1 & H2 & H3).
+  assert (Hf : fs_ok c08_fs2 = true) by (vm_compute; reflexivity).
+  assert (Hr : cleanb c08_root = true) by (vm_compute; reflexivity).
+  assert (Hw : write_side foam_to_string_sd (read_plain c08_fs2 c08_root true true (-1)) = true) by (vm_compute; reflexivity).
+  assert (Hs : write_safe (c08_sd (read_plain c08_fs2 c08_root true true (-1))) = true) by (vm_compute; reflexivity).
+  refine (conj Hw (conj (C08_foam_write_after_read_includes_counter_independent _ _ _ _ H1 H3 Hf Hr Hw) _)).
+  split; [vm_compute; reflexivity|]. split; [exact (C08_foam_writer_equivariant _ _ Hs)|]. split; vm_compute; reflexivity.
+Qed.
+
+(* ---- (C) DictWriter.write and DictParser.parse (mode w, order off) ----------------------------------------------- *)
+(* write_sd with append = false, order = false: parse_values on the source, then the formatter.  write_sd_side foam s: the
+   source as serialised (write_src s: after parse_values) is write_safe and its text contains no placeholder name.
+   text_of drops the counter that the model threads through. *)
+Theorem C08_write_sd_counter_independent : forall fs foam target d s c c',
+  write_sd_side foam s = true ->
+  text_of (Parse.write_sd fs foam target false false (rename_sd d s) c') = text_of (Parse.write_sd fs foam target false false s c).
+Proof. exact write_sd_counter_independent. Qed.
+Print Assumptions C08_write_sd_counter_independent.
+
+Example C08_write_sd_counter_independent_nonvacuous :
+  let s := c08_sd (read_plain c08_fs2 c08_root true true (-1)) in
+  write_sd_side false s = true /\ write_sd_side true s = true /\
+  text_of (Parse.write_sd c08_fs2 false (of_string "/d/out.dict") false false (rename_sd 999998 s) 4) =
+  text_of (Parse.write_sd c08_fs2 false (of_string "/d/out.dict") false false s 6) /\
+  rename_sd 999998 s = c08_sd (read_plain c08_fs2 c08_root true true 999997) /\
+  (exists txt, text_of (Parse.write_sd c08_fs2 false (of_string "/d/out.dict") false false s 6) = Some (Ok txt) /\ List.length txt = 520%nat).
+Proof.
+  cbv zeta.
+  assert (Hw : write_sd_side false (c08_sd (read_plain c08_fs2 c08_root true true (-1))) = true) by (vm_compute; reflexivity).
+  refine (conj Hw (conj _ (conj (C08_write_sd_counter_independent _ _ _ _ _ _ _ Hw) (conj _ _)))); [vm_compute; reflexivity|vm_compute; reflexivity|].
+  eexists. split; vm_compute; reflexivity.
+Qed.
+
+(* DictParser.parse(source) with includes on, mode w, order off, comments on, no scope (the defaults), output None / cpp /
+   foam: the target path and the text written do not depend on the counter.  pm_out drops the counter; pm_side: the
+   side condition write_sd_side on the SDict read in the first run, for the formatter the output option selects. *)
+Theorem C08_parse_counter_independent_written : forall fs src output c1 c2,
+  counter_ok c1 -> counter_ok c2 -> fs_ok fs = true -> cleanb src = true ->
+  pm_side fs src output c1 = true ->
+  pm_out (Parse.parse_model fs src true false false true [] output c2) = pm_out (Parse.parse_model fs src true false false true [] output c1).
+Proof. exact parse_model_counter_independent. Qed.
+Print Assumptions C08_parse_counter_independent_written.
+
+Example C08_parse_counter_independent_written_nonvacuous :
+  fs_ok c08_fs2 = true /\ cleanb c08_root = true /\ pm_side c08_fs2 c08_root None (-1) = true /\
+  pm_side c08_fs2 c08_root (Some (of_string "foam")) (-1) = true /\
+  pm_out (Parse.parse_model c08_fs2 c08_root true false false true [] None 123456) = pm_out (Parse.parse_model c08_fs2 c08_root true false false true [] None (-1)) /\
+  pm_out (Parse.parse_model c08_fs2 c08_root true false false true [] None 999997) = pm_out (Parse.parse_model c08_fs2 c08_root true false false true [] None (-1)) /\
+  pm_out (Parse.parse_model c08_fs2 c08_root true false false true [] (Some (of_string "foam")) 999997) =
+    pm_out (Parse.parse_model c08_fs2 c08_root true false false true [] (Some (of_string "foam")) (-1)) /\
+  (exists txt, pm_out (Parse.parse_model c08_fs2 c08_root true false false true [] None 999997) = Some (Ok (of_string "/d/parsed.main.dict", txt)) /\
+               List.length txt = 520%nat /\ contains (of_string "// sub comment") txt = true) /\
+  (* the counters the two runs end with differ *)
+  (option_map (map_res snd) (Parse.parse_model c08_fs2 c08_root true false false true [] None 999997),
+   option_map (map_res snd) (Parse.parse_model c08_fs2 c08_root true false false true [] None (-1))) = (Some (Ok 4%Z), Some (Ok 6%Z)).
+Proof.
+  destruct c08_ok as (H1 & H2 & H3).
+  assert (Hf : fs_ok c08_fs2 = true) by (vm_compute; reflexivity).
+  assert (Hr : cleanb c08_root = true) by (vm_compute; reflexivity).
+  assert (Hp : pm_side c08_fs2 c08_root None (-1) = true) by (vm_compute; reflexivity).
+  assert (Hq : pm_side c08_fs2 c08_root (Some (of_string "foam")) (-1) = true) by (vm_compute; reflexivity).
+  refine (conj Hf (conj Hr (conj Hp (conj Hq (conj (C08_parse_counter_independent_written _ _ _ _ _ H1 H2 Hf Hr Hp)
+         (conj (C08_parse_counter_independent_written _ _ _ _ _ H1 H3 Hf Hr Hp)
+         (conj (C08_parse_counter_independent_written _ _ _ _ _ H1 H3 Hf Hr Hq) _))))))).
+  split; [|vm_compute; reflexivity]. eexists. split; [vm_compute; reflexivity|]. split; vm_compute; reflexivity.
+Qed.
+
+(* order = true: SDict.order_keys sorts the placeholder keys (and the tables) by their ids, so when the ids of one read
+   straddle the wrap-around the comments come out in a different order: the bytes written DO depend on the counter.
+   Known finding, same behaviour of the library (dictIO 0.4.1: DictParser.parse(main.dict, order=True) with the counter
+   preset to 999997 writes "// sub comment" before "// first", with -1 and 123456 after "// second"). *)
+Example C08_order_wrap_finding :
+  let w c := match Parse.parse_model c08_fs2 c08_root true false true true [] None c with Some (Ok (_, txt, _)) => txt | _ => [] end in
+  w 123456%Z = w (-1)%Z /\ w 999997%Z <> w (-1)%Z /\ List.length (w 999997%Z) = List.length (w (-1)%Z) /\
+  contains (of_string "// first
+// second
+// sub comment
+a ") (w (-1)%Z) = true /\
+  contains (of_string "// sub comment
+// first
+// second
+a ") (w 999997%Z) = true.
+Proof.
+  cbv zeta. split; [vm_compute; reflexivity|]. split; [vm_compute; discriminate|]. split; [vm_compute; reflexivity|].
+  split; vm_compute; reflexivity.
+Qed.
+
+(* ---- findings ---------------------------------------------------------------------------------------------- *)
+(* (1) the written text CAN contain placeholder names, and then the bytes depend on the counter: a line comment inside a
+   block comment stays LINECOMMENT + id in the comment text (the writer only re-inserts the pattern
+   PLACEHOLDER ws+ PLACEHOLDER; ), a quoted key stays STRINGLITERAL + id (the parser re-inserts string literals into values
+   only).  Same behaviour of the library (dictIO 0.4.1, DictReader.read + NativeFormatter.to_string):
+   BLOCKCOMMENT texts and keys of the output show LINECOMMENT000000 / STRINGLITERAL000002 at the fresh counter and
+   LINECOMMENT000006 / STRINGLITERAL000008 at counter 5. *)
+Example C08_written_placeholder_finding :
+  let t := of_string "/* a // b
+ */ x 1;
+'k k' 3;
+" in
+  let fs := [(c08_root, FNative t)] in
+  let w c := match read_plain fs c08_root false true c with Ok (s, _) => to_string_sd s | Raise _ => [] end in
+  cleanb t = true /\ parse_side (lex true (dir_of c08_root) (-1) t) = true /\
+  write_side to_string_sd (read_plain fs c08_root false true (-1)) = false /\
+  match read_plain fs c08_root false true (-1) with Ok (s, _) => write_safe s | Raise _ => false end = true /\
+  contains (of_string "/* a LINECOMMENT000000") (w (-1)%Z) = true /\ contains (of_string "STRINGLITERAL000001  ") (w (-1)%Z) = true /\
+  contains (of_string "/* a LINECOMMENT000006") (w 5%Z) = true /\ contains (of_string "STRINGLITERAL000007  ") (w 5%Z) = true /\
+  w (-1)%Z <> w 5%Z /\ w 5%Z = rename_str (5 - -1) (w (-1)%Z).
+Proof.
+  cbv zeta. do 8 (split; [vm_compute; reflexivity|]). split; [vm_compute; discriminate|vm_compute; reflexivity].
+Qed.
+
+(* (2) write_safe is needed for the writer to commute with the renaming: a key in which the re-insertion pattern is followed
+   by digits.  After the block comment "/* LINECOMMENT" has been put in place of the pattern, its end and the digits spell the
+   placeholder of line comment 1, which the line comment stage then replaces; renamed, the digits stay (they are no
+   placeholder in the key) and the line comment has id 8: nothing is replaced.  The text written from s is free of
+   placeholder names all the same.  (Not reachable from a read of a placeholder-free source.) *)
+Example C08_writer_safe_finding :
+  let s := mkSD [(KS (of_string "BLOCKCOMMENT000001 BLOCKCOMMENT000001;000001 LINECOMMENT000001;"), Leaf (SInt 1))]
+                [(1%N, of_string "//x")] [(0%N, of_string "/* h */"); (1%N, of_string "/* LINECOMMENT")] [] [] in
+  write_safe s = false /\ cleanb (to_string_sd s) = true /\
+  contains (of_string "'/* //x'") (to_string_sd s) = true /\
+  contains (of_string "'/* LINECOMMENT000001 LINECOMMENT000008;'") (to_string_sd (rename_sd 7 s)) = true /\
+  to_string_sd (rename_sd 7 s) <> rename_str 7 (to_string_sd s).
+Proof. cbv zeta. do 4 (split; [vm_compute; reflexivity|]). vm_compute. discriminate. Qed.
+
+(* (2') the other parts of write_safe are needed as well.
+   ids: a table id of seven digits is not moved by the renaming, but its placeholder text is read as a six digit id plus a
+   digit, and is renamed in the data: the entry is no longer found (the text written from s is free of placeholders).
+   head: a table text that begins with digits spells a new placeholder together with an upper case word in front of it.
+   last: the duplicate test of insert_block_comments (is the comment contained in what was inserted so far) is a substring
+   test; a block comment text ending in the middle of a placeholder name matches before the renaming and not after. *)
+Example C08_writer_safe_finding_ids :
+  let s := mkSD [(KS (of_string "LINECOMMENT1000000"), Leaf (SStr (of_string "LINECOMMENT1000000")))] [(1000000%N, of_string "//x")] [] [] [] in
+  write_safe s = false /\ cleanb (to_string_sd s) = true /\ contains (of_string "//x") (to_string_sd s) = true /\
+  contains (of_string "LINECOMMENT1000070            LINECOMMENT1000070;") (to_string_sd (rename_sd 7 s)) = true /\
+  to_string_sd (rename_sd 7 s) <> to_string_sd s.
+Proof. cbv zeta. do 4 (split; [vm_compute; reflexivity|]). vm_compute. discriminate. Qed.
+
+Example C08_writer_safe_finding_head :
+  let s := mkSD [(KS (of_string "x"), Leaf (SStr (of_string "LINECOMMENTLINECOMMENT000001 LINECOMMENT000001; y")))] [(1%N, of_string "000002")] [] [] [] in
+  write_safe s = false /\
+  contains (of_string "'LINECOMMENT000002 y'") (to_string_sd s) = true /\
+  contains (of_string "'LINECOMMENT000002 y'") (to_string_sd (rename_sd 7 s)) = true /\
+  contains (of_string "'LINECOMMENT000009 y'") (rename_str 7 (to_string_sd s)) = true /\
+  to_string_sd (rename_sd 7 s) <> rename_str 7 (to_string_sd s).
+Proof. cbv zeta. do 4 (split; [vm_compute; reflexivity|]). vm_compute. discriminate. Qed.
+
+Example C08_writer_safe_finding_last :
+  let k i := (KS (placeholder w_BLOCKCOMMENT i), Leaf (SStr (placeholder w_BLOCKCOMMENT i))) in
+  let s := mkSD [k 0%N; k 1%N; (KS (of_string "a"), Leaf (SInt 1))] []
+                [(0%N, of_string "/*A LINECOMMENT000001 */"); (1%N, of_string "/*A LINECOMMENT00000")] [] [] in
+  write_safe s = false /\
+  contains (of_string "/*A LINECOMMENT00000
+") (to_string_sd s) = false /\
+  contains (of_string "/*A LINECOMMENT00000
+") (to_string_sd (rename_sd 100000 s)) = true /\
+  to_string_sd (rename_sd 100000 s) <> rename_str 100000 (to_string_sd s).
+Proof. cbv zeta. do 3 (split; [vm_compute; reflexivity|]). vm_compute. discriminate. Qed.
